@@ -1622,6 +1622,12 @@ R.seed("C16.c", F_M, _W_PATH, "        segs = path\n        path = \"\"\n       
        "string accumulation, trailing empty segments stripped from the composed text")
 R.seed("C16.c", F_M, _W_QUERY, "        pieces = []\n        for i, q in enumerate(query):\n            if i > 1:\n                pieces.append(\"&\")\n            pieces.append(_quote_for_query(q))\n        query = \"\".join(pieces)\n",
        "conditional append of the separator, off by one")
+# (fourth pass) a handler that completes normally BEFORE an accumulation loop (`hasattr` respelled as try / except
+# AttributeError) is not an effect of the loop: the loop keeps its closed form on the handler's path, and the fault is seen
+R.seed("C16.c", F_M, _W_PATH, "        try:\n            path = self._original_request_path\n        except AttributeError:\n            pass\n        parts = []\n        for p in path:\n            parts.append(_quote_for_path(p))\n            parts.append(\"/\")\n        path = \"\".join(parts) or \"/\"\n",
+       "try / except AttributeError with a normally completing handler before the loop; separator after the segment instead of before it")
+R.seed("C16.c", F_M, _W_QUERY, "        try:\n            query = self._original_request_query\n        except AttributeError:\n            query = tuple(query)\n        pieces = []\n        for q in query:\n            if q:\n                pieces.append(_quote_for_query(q))\n        query = \"&\".join(pieces)\n",
+       "normally completing handler before the loop; empty query items dropped by a conditional append")
 R.seed("C16.c", F_Q, "    def quote(input_string):\n        encoded = input_string.encode(\"utf8\")\n        return \"\".join(chr(x) if x in safe_set else \"%%%02X\" % x for x in encoded)\n",
        "    table = []\n    for x in range(256):\n        if x in safe_set:\n            table.append(chr(x))\n        else:\n            table.append(\"%%%02x\" % x)\n\n    def quote(input_string):\n        return \"\".join([table[x] for x in input_string.encode(\"utf8\")])\n",
        "precomputed 256-entry table with lower-case escapes")
